@@ -516,8 +516,10 @@ def gen_case(rng, focus=None, kmax=6):
     K = rng.randint(1, kmax)
     if focus in ('pairwise', 'correlation', 'sandwich') and K < 2:
         K = rng.randint(2, kmax)
-    kinds = ['negdef'] * 5 + ['singular'] * 2 + ['indefinite'] * 2 + ['zero_row', 'none']
+    kinds = ['negdef'] * 5 + ['singular'] * 2 + ['indefinite'] * 2 + ['zero_row', 'none', 'badscale']
     kind = rng.choice(kinds)
+    if focus == 'varcovar' and rng.random() < 0.5:
+        kind = 'badscale'
     if focus in ('family', 'pvalue', 'pairwise', 'sandwich', 'varcovar', 'correlation', 'bootcov') and kind == 'none':
         kind = 'negdef'
     if K == 1 and kind in ('singular', 'zero_row', 'indefinite'):
@@ -533,6 +535,22 @@ def gen_case(rng, focus=None, kmax=6):
             d = Fr(rng.randint(1, 16), 8)
             for i in range(K):
                 A[i][i] += d
+        elif kind == 'badscale':
+            # INVERTIBLE, positive definite, badly scaled: A = M.D.M^T, M unit lower triangular with small dyadic
+            # shears, D = diag(2^e) with the smallest entry in 2^-28..2^-18 (4e-9..4e-6: an attribute of order
+            # 1e-3..1e-4) and the largest in 2^-2..2^4; condition number kept <= 1e10, i.e. five orders of
+            # magnitude above scipy's default pinv cut-off max(M,N)*eps
+            e_lo, e_hi = rng.randint(-28, -18), rng.randint(-2, 4)
+            es = [e_lo] + [rng.randint(e_lo, e_hi) for _ in range(K - 2)] + ([e_hi] if K >= 2 else [])
+            rng.shuffle(es)
+            Mx = [[Fr(int(i == j)) if j >= i else Fr(rng.randint(-2, 2), 4) for j in range(K)] for i in range(K)]
+            A = [[sum(Mx[i][k] * Fr(2) ** es[k] * Mx[j][k] for k in range(K)) for j in range(K)] for i in range(K)]
+            if any(Fr(float(v)) != v for r_ in A for v in r_):
+                continue
+            sv = np.linalg.svd(np.array([[float(v) for v in r_] for r_ in A]), compute_uv=False)
+            if sv[-1] <= 0 or sv[0] / sv[-1] > 1e10 or sv[-1] > 5e-6:
+                continue
+            break
         elif kind == 'singular':
             r = rng.randint(1, K - 1)
             A = gen_matrix_psd(rng, K, r)
@@ -776,9 +794,21 @@ def check_case(c, out, groups=None):
                     if err > tol * max(scale, Fr(1, 10 ** 30)):
                         bad('varcovar', nm, {'max_abs_error_allowed': float(tol * scale)}, {'max_abs_error': float(err)},
                             'varCovar is not the pseudo-inverse of -H')
-                if c['kind'] in ('negdef', 'indefinite'):
+                if c['kind'] in ('negdef', 'indefinite', 'badscale', 'estimated'):
                     Vx = inv_exact(A)
                     if Vx is not None:
+                        # A is exactly invertible: V.A = I in exact rationals.  A backward-stable SVD inverse has
+                        # |V.A - I| <~ K eps cond(A); tolerance 1000 * 2^-52 * |A|_F |A^-1|_F with the EXACT inverse
+                        # (independent of the reported V, so a truncated pseudo-inverse cannot shrink it)
+                        kx = max(1.0, fro(A) * fro(Vx))
+                        tolI = Fr(1000 * 2.0 ** -52 * kx)
+                        cnt['compared'] += 1
+                        VAm = mm(V, A)
+                        err = max(abs(VAm[i][j] - (1 if i == j else 0)) for i in range(K) for j in range(K))
+                        if err > tolI:
+                            bad('varcovar', 'inverse[varCovar.(-H) = I]', {'max_abs_error_allowed': float(tolI), 'cond': kx},
+                                {'max_abs_error': float(err)},
+                                '-H is invertible but varCovar is not its inverse')
                         cnt['compared'] += 1
                         err = max(abs(Vx[i][j] - V[i][j]) for i in range(K) for j in range(K))
                         if err > tol * mmax(Vx):
@@ -1197,6 +1227,7 @@ def report(ctx, c, ms, limit_per_case=2):
 
 def stream_stats(ctx, n, focus=None, groups=None, name='stats', with_corpus=True):
     st = ctx.stream(name, 'synthetic raw outcomes (K = 1..6; Hessian negative definite / singular / zero row / indefinite / '
+                    'invertible but badly scaled (cond <= 1e10, smallest eigenvalue < 5e-6) / '
                     'absent; random PSD BHHH; with and without null likelihood, bounds, bootstrap sample, second model for '
                     'the LR test) through bioResults; every reported number compared with its defining formula in exact '
                     'rational arithmetic (relative tolerance 1e-9, condition-scaled for the matrix identities); '
@@ -1232,7 +1263,7 @@ def stream_stats(ctx, n, focus=None, groups=None, name='stats', with_corpus=True
     st.extra['distribution'] = dict(sorted(by.items()))
     # fail closed when the generator degenerates
     if n >= 100 and not groups:
-        need = ['K=1', 'K=2', 'K=6', 'negdef', 'singular', 'indefinite', 'zero_row', 'none', 'boot=y', 'boot=n', 'null=y', 'null=n']
+        need = ['K=1', 'K=2', 'K=6', 'negdef', 'singular', 'indefinite', 'zero_row', 'badscale', 'none', 'boot=y', 'boot=n', 'null=y', 'null=n']
         missing = [k for k in need if by.get(k, 0) == 0]
         if missing:
             ctx.stream_broken(name, f'generator coverage floor not met: no case with {missing}')
